@@ -660,6 +660,101 @@ theorem Sph.ray_first_hit (sqrt : K → K) (hsq : SqrtSpec sqrt) (r : K) (o d : 
       nlinarith [hwb.1, hwb.2]
 
 
+omit [LinearOrder K] [IsStrictOrderedRing K] in
+/-- along a ray, `rx²·(1 − f)` of the ellipsoid is the quadratic `a s² − 2 b s + c` of the code (`sy = rx²/ry²`, `sz = rx²/rz²`) -/
+theorem Ell.ray_quadratic (r o d : V3 K) (s : K) :
+    let sy := r.x * r.x / (r.y * r.y)
+    let sz := r.x * r.x / (r.z * r.z)
+    let p := rayPt o d s
+    p.x * p.x + sy * p.y * p.y + sz * p.z * p.z - r.x * r.x
+      = (V3.dot ⟨d.x, sy * d.y, sz * d.z⟩ d) * s * s - 2 * (-(V3.dot ⟨d.x, sy * d.y, sz * d.z⟩ o)) * s
+        + (o.x * o.x + sy * o.y * o.y + sz * o.z * o.z - r.x * r.x) := by
+  simp only [rayPt, V3.dot, V3.add, V3.smul]; ring
+
+/-- ellipsoid ray query (origin not on the surface, `a = d·S d > 0`): with `Q(s) = a s² − 2 b s + c` the scaled implicit
+function along the ray (`Q < 0` inside, `Q > 0` outside), a reported hit is at a non-negative distance, is a root of `Q`,
+and `Q` has no root before it; from **inside** (`c < 0`) a hit is always reported and it is the unique non-negative
+root; a reported miss means `Q` has no non-negative root -/
+theorem Ell.ray_first_hit (sqrt : K → K) (hsq : SqrtSpec sqrt) (r o d : V3 K)
+    (ha : 0 < V3.dot ⟨d.x, r.x * r.x / (r.y * r.y) * d.y, r.x * r.x / (r.z * r.z) * d.z⟩ d)
+    (hc : o.x * o.x + r.x * r.x / (r.y * r.y) * o.y * o.y + r.x * r.x / (r.z * r.z) * o.z * o.z - r.x * r.x ≠ 0) :
+    let a := V3.dot ⟨d.x, r.x * r.x / (r.y * r.y) * d.y, r.x * r.x / (r.z * r.z) * d.z⟩ d
+    let b := -(V3.dot ⟨d.x, r.x * r.x / (r.y * r.y) * d.y, r.x * r.x / (r.z * r.z) * d.z⟩ o)
+    let c := o.x * o.x + r.x * r.x / (r.y * r.y) * o.y * o.y + r.x * r.x / (r.z * r.z) * o.z * o.z - r.x * r.x
+    match Ell.ray sqrt r o d with
+    | none => 0 < c ∧ ∀ s, 0 ≤ s → a * s * s - 2 * b * s + c ≠ 0
+    | some (dist, _) => 0 ≤ dist ∧ a * dist * dist - 2 * b * dist + c = 0 ∧
+        (∀ s, 0 ≤ s → s < dist → a * s * s - 2 * b * s + c ≠ 0) ∧
+        (c < 0 → ∀ s, 0 ≤ s → a * s * s - 2 * b * s + c = 0 → s = dist) := by
+  intro a b c
+  have hc0 : c ≠ 0 := hc
+  have ha' : 0 < a := ha
+  have ea : a = V3.dot ⟨d.x, r.x * r.x / (r.y * r.y) * d.y, r.x * r.x / (r.z * r.z) * d.z⟩ d := rfl
+  have eb : b = -(V3.dot ⟨d.x, r.x * r.x / (r.y * r.y) * d.y, r.x * r.x / (r.z * r.z) * d.z⟩ o) := rfl
+  have ec : c = o.x * o.x + r.x * r.x / (r.y * r.y) * o.y * o.y + r.x * r.x / (r.z * r.z) * o.z * o.z - r.x * r.x := rfl
+  unfold Ell.ray
+  simp only []
+  rw [← ea, ← eb, ← ec]
+  clear_value a b c
+  clear ea eb ec hc ha
+  rename' a => A, b => B, c => C
+  -- a·Q(s) = (A s − B)² − (B² − A C)
+  have key : ∀ s : K, A * (A * s * s - 2 * B * s + C) = (A * s - B) * (A * s - B) - (B * B - A * C) := by intro s; ring
+  split_ifs with h1 h2 h3 h4
+  · -- outside, towards, negative discriminant
+    refine ⟨h1, fun s _ heq => ?_⟩
+    have := key s; rw [heq, mul_zero] at this
+    nlinarith [mul_self_nonneg (A * s - B)]
+  · -- outside, hit at (B − w)/A
+    have hD : 0 ≤ B * B - A * C := not_lt.mp h3
+    have hs := hsq.sq _ hD
+    have hn := hsq.nonneg _ hD
+    generalize sqrt (B * B - A * C) = w at hs hn ⊢
+    have hwb : w < B := by
+      by_contra hcon
+      have : B * B ≤ w * w := by nlinarith [not_lt.mp hcon]
+      nlinarith
+    have hA : A ≠ 0 := ne_of_gt ha'
+    refine ⟨div_nonneg (by linarith) ha'.le, ?_, ?_, fun hneg => absurd hneg (not_lt.mpr h1.le)⟩
+    · field_simp; nlinarith
+    · intro s hs0 hs1 heq
+      have := key s; rw [heq, mul_zero] at this
+      have hlt : A * s < B - w := by rwa [lt_div_iff₀ ha', mul_comm] at hs1
+      nlinarith
+  · -- outside, pointing away
+    refine ⟨h1, fun s hs0 heq => ?_⟩
+    have hB := not_lt.mp h2
+    nlinarith [mul_nonneg ha'.le (mul_self_nonneg s), mul_nonneg hs0 (neg_nonneg.mpr hB)]
+  · -- inside: discriminant is positive
+    exfalso
+    have : C ≤ 0 := not_lt.mp h1
+    nlinarith [mul_self_nonneg B, mul_nonneg ha'.le (neg_nonneg.mpr this)]
+  · -- inside, hit at (B + w)/A
+    have hcneg : C < 0 := lt_of_le_of_ne (not_lt.mp h1) hc0
+    have hD : 0 ≤ B * B - A * C := not_lt.mp h4
+    have hs := hsq.sq _ hD
+    have hn := hsq.nonneg _ hD
+    generalize sqrt (B * B - A * C) = w at hs hn ⊢
+    have hAC : A * C < 0 := mul_neg_of_pos_of_neg ha' hcneg
+    have hwb : B < w ∧ -B < w := by
+      constructor <;> (by_contra hcon; have := not_lt.mp hcon; nlinarith)
+    have hA : A ≠ 0 := ne_of_gt ha'
+    refine ⟨div_nonneg (by linarith [hwb.2]) ha'.le, ?_, ?_, ?_⟩
+    · field_simp; nlinarith
+    · intro s hs0 hs1 heq
+      have := key s; rw [heq, mul_zero] at this
+      have hlt : A * s < B + w := by rwa [lt_div_iff₀ ha', mul_comm] at hs1
+      have hge : 0 ≤ A * s := mul_nonneg ha'.le hs0
+      nlinarith [hwb.1, hwb.2]
+    · intro _ s hs0 heq
+      have := key s; rw [heq, mul_zero] at this
+      have hge : 0 ≤ A * s := mul_nonneg ha'.le hs0
+      -- (A s − B)² = w², and A s − B > −w, so A s − B = w
+      have hfac : (A * s - B - w) * (A * s - B + w) = 0 := by nlinarith
+      rcases mul_eq_zero.mp hfac with h | h
+      · rw [eq_div_iff hA]; linarith
+      · exfalso; nlinarith [hwb.1, hwb.2]
+
 /-! ## finding F5 at the level of the model, and non-vacuity of the hypotheses used above -/
 
 /-- **F5**: the guard `t + aᵢ² ≠ 0` of `Ell.nearest_on_surface` cannot be dropped.  Radii (3,2,1), query
